@@ -38,15 +38,20 @@ func c01Record(rng *rand.Rand, uid *int) string {
 		}
 		return reqCall(u, fmt.Sprintf("c%d", u), []string{"ok", "err", "errcode:7"}[rng.Intn(3)])
 	}
+	// blank padding around the record (framings such as Header / Direct pass it on verbatim)
+	pad := func(rec string) string {
+		blanks := []string{"", "", "", " ", "\n", "\r\n", "\t", "\r", " \r\n\t "}
+		return blanks[rng.Intn(len(blanks))] + rec + blanks[rng.Intn(len(blanks))]
+	}
 	if rng.Intn(2) == 0 {
 		n := 1 + rng.Intn(4)
 		ms := make([]string, n)
 		for i := range ms {
 			ms[i] = member()
 		}
-		return reqBatch(ms...)
+		return pad(reqBatch(ms...))
 	}
-	return member()
+	return pad(member())
 }
 
 func TestC01(t *testing.T) {
